@@ -650,6 +650,10 @@ func c19R6(c *Ctx) {
 					if !a.isContainerPtr(ta.AssertedType) {
 						continue
 					}
+					if fd, ok := f.Syntax().(*ast.FuncDecl); ok && c.armsRedundant(fd) {
+						c.Ob("C19.R6", "element-type-test/"+a.FuncName(f)+"#"+itoa(k), ta.Pos()).Ok("the arm for %s does exactly what the interface call of the default arm does for that type (default specialised to the type and compared path for path): a derived container takes the default and is treated the same", shortType(ta.AssertedType))
+						continue
+					}
 					c.Ob("C19.R6", "element-type-test/"+a.FuncName(f)+"#"+itoa(k), ta.Pos()).Fail("a stored element is tested for the concrete type %s: a derived container (registered outer value) is not one, so it is treated as a non-container here", shortType(ta.AssertedType))
 				}
 			}
